@@ -238,6 +238,12 @@ def setFeatsPrim (k : MKey) (arg : FeatArg) (s : Ctx) : Ctx :=
     | some (m', _) => m'
     | none => m
 
+/-- `lys_set_features` on an implemented module: the flags are flipped in place and the module is marked `to_compile` -/
+def setFeatsFlag (k : MKey) (arg : FeatArg) (s : Ctx) : Ctx :=
+  s.upd k fun m => match setFeatures m arg with
+    | some (m', _) => { m' with toCompile := true }
+    | none => m
+
 /-- `lys_check_features`: an enabled feature whose (first) if-feature is false -/
 def Mod.featuresOk (m : Mod) : Bool :=
   m.allFeats.all fun f => !f.on || match f.iff with
@@ -295,86 +301,116 @@ def createMod (src : ModSrc) (l : Latest) (s : Ctx) : Ctx :=
   tick 1 { s with mods := s.mods ++ [{ newMod src l with parsing := true, broken := true }],
                   creating := s.creating ++ [(src.name, src.rev)] }
 
+/-- what `lys_parse_in` decides before it changes anything -/
+inductive ParseDecision
+  | fail (rc : Nat)
+  | existing (k : MKey)                          -- "already present in the context": nothing to do
+  | create (old : Option MKey) (l : Latest)      -- add the module; `old` loses LATEST_REV / LATEST_SEARCHDIRS
+
+def parseDecision (s : Ctx) (src : ModSrc) (check : Option (Option Bytes)) : ParseDecision :=
+  let (old, lflags) := latestDecision s src
+  -- lysp_load_module_check
+  let chk : Option Nat := match check with
+    | none => none
+    | some (some r) => if src.rev == r then none else some EINVAL
+    | some none => if lflags.any then none else some EEXIST
+  match chk with
+  | some rc => .fail rc
+  | none =>
+    match s.getModule src.name src.rev with
+    | some d => .existing d.key
+    | none =>
+      match (match s.getLatestNs src.ns with
+             | some d => d.src.rev == src.rev
+             | none => false) with
+      | true => .fail EINVAL                     -- two modules with one namespace
+      | false => .create old lflags
+
+/-- the previous latest revision loses its flags, the new module enters the context -/
+def enterMod (src : ModSrc) (old : Option MKey) (l : Latest) (s : Ctx) : Ctx :=
+  createMod src l (match old with
+    | some ok => s.upd ok fun m => { m with latest := { m.latest with rev := false, dirs := false } }
+    | none => s)
+
+/-- the rest of `lys_parse_in` after the imports were resolved -/
+def finishParse (src : ModSrc) (k : MKey) : M MKey := do
+  updM k fun m => { m with parsing := false }
+  match src.fault .late with
+  | some rc => failS rc
+  | none => do
+    updM k fun m => { m with broken := false }
+    pure k
+
+/-- where `lys_parse_load` looks first: (module found in the context, older module to be possibly superseded) -/
+def loadLookup (s : Ctx) (name : Bytes) (rev : Option Bytes) : Option MKey × Option Mod :=
+  match rev with
+  | some r => ((s.getModule name r).map (·.key), none)
+  | none => match s.withoutRevision name with
+    | some m => if !m.implemented && !m.latest.imp then (none, some m) else (some m.key, none)
+    | none => (none, none)
+
+/-- the flag updates of `lys_parse_load_from_clb_or_file` / `lys_parse_load` once the callback has (not) delivered -/
+def loadFinish (rev : Option Bytes) (got : Option MKey) (modLatest : Option Mod) : M MKey :=
+  match got with
+  | some g => do
+    (if rev.isNone then updM g fun m => { m with latest := { m.latest with clb := true } } else pure ())
+    let s' ← getS
+    (if rev.isNone && ((s'.find g).map (·.latest.rev)).getD false then
+       updM g fun m => { m with latest := { m.latest with dirs := true } } else pure ())
+    pure g
+  | none =>
+    match modLatest with
+    | none => failS EVALID                     -- "Loading module failed."
+    | some ml => do
+      updM ml.key fun m => { m with latest := { m.latest with dirs := true } }
+      pure ml.key
+
+/-- "we are not able to find a newer revision": the callback already delivered its latest one -/
+def clbSkip (modLatest : Option Mod) : Bool :=
+  match modLatest with
+  | some ml => ml.latest.clb
+  | none => false
+
+/-- `lys_check_circular_dependency` -/
+def circularCheck (k : MKey) : M MKey := do
+  let s ← getS
+  if ((s.find k).map (·.parsing)).getD false then failS EVALID else pure k
+
 mutual
 /-- `lys_parse_in` (+ `lysp_resolve_import_include`); `check = some rev?` when called through the import callback
     (`lysp_load_module_check`).  Returns the key of the module now in the context. -/
 def parseIn : Nat → ModSrc → Option (Option Bytes) → M MKey
   | 0, _, _ => failS EINT
-  | fuel + 1, src, check => do
+  | fuel + 1, src, check =>
     match src.fault .syntax with
     | some rc => failS rc
-    | none =>
+    | none => do
       let s ← getS
-      let (old, lflags) := latestDecision s src
-      -- lysp_load_module_check
-      let chk : Option Nat := match check with
-        | none => none
-        | some (some r) => if src.rev == r then none else some EINVAL
-        | some none => if lflags.any then none else some EEXIST
-      match chk with
-      | some rc => failS rc
-      | none =>
-        match s.getModule src.name src.rev with
-        | some d => pure d.key                       -- already present: nothing to do
-        | none =>
-          match (match s.getLatestNs src.ns with
-                 | some d => d.src.rev == src.rev
-                 | none => false) with
-          | true => failS EINVAL
-          | false => do
-            match old with
-            | some ok => updM ok fun m => { m with latest := { m.latest with rev := false, dirs := false } }
-            | none => pure ()
-            let k : MKey := (src.name, src.rev)
-            modS (createMod src lflags)
-            forEach src.imports fun (iname, irev) => do
-              let t ← parseLoad fuel iname (if irev.isEmpty then none else some irev)
-              (if irev.isEmpty then updM t fun m => { m with latest := { m.latest with imp := true } } else pure ())
-              updM k fun m => { m with impRes := m.impRes ++ [t] }
-            updM k fun m => { m with parsing := false }
-            match src.fault .late with
-            | some rc => failS rc
-            | none => do
-              updM k fun m => { m with broken := false }
-              pure k
+      match parseDecision s src check with
+      | .fail rc => failS rc
+      | .existing k => pure k
+      | .create old lflags => do
+        let k : MKey := (src.name, src.rev)
+        modS (enterMod src old lflags)
+        forEach src.imports fun x => do
+          let t ← parseLoad fuel x.1 (if x.2.isEmpty then none else some x.2)
+          (if x.2.isEmpty then updM t fun m => { m with latest := { m.latest with imp := true } } else pure ())
+          updM k fun m => { m with impRes := m.impRes ++ [t] }
+        finishParse src k
 
 /-- `lys_parse_load` with `lys_parse_load_from_clb_or_file` on the callback route (search dirs disabled) -/
 def parseLoad : Nat → Bytes → Option Bytes → M MKey
   | 0, _, _ => failS EINT
   | fuel + 1, name, rev => do
     let s ← getS
-    let (found, modLatest) : Option Mod × Option Mod := match rev with
-      | some r => (s.getModule name r, none)
-      | none => match s.withoutRevision name with
-        | some m => if !m.implemented && !m.latest.imp then (none, some m) else (some m, none)
-        | none => (none, none)
-    let k ← match found with
-      | some m => pure m.key
-      | none => do
-        -- lys_parse_load_from_clb_or_file
-        let skip := match modLatest with
-          | some ml => ml.latest.clb
-          | none => false
-        let got : Option MKey ← (if skip then pure none else
-          match repoFind s.repo name rev with
+    (match loadLookup s name rev with
+     | (some key, _) => (pure key : M MKey)
+     | (none, modLatest) =>
+       -- lys_parse_load_from_clb_or_file
+       (if clbSkip modLatest then (pure none : M (Option MKey))
+        else match repoFind s.repo name rev with
           | some src => attempt (parseIn fuel src (some rev))
-          | none => pure none)
-        match got with
-        | some g => do
-          (if rev.isNone then updM g fun m => { m with latest := { m.latest with clb := true } } else pure ())
-          let s' ← getS
-          (if rev.isNone && ((s'.find g).map (·.latest.rev)).getD false then
-             updM g fun m => { m with latest := { m.latest with dirs := true } } else pure ())
-          pure g
-        | none =>
-          match modLatest with
-          | none => failS EVALID                     -- "Loading module failed."
-          | some ml => do
-            updM ml.key fun m => { m with latest := { m.latest with dirs := true } }
-            pure ml.key
-    -- lys_check_circular_dependency
-    let s'' ← getS
-    if ((s''.find k).map (·.parsing)).getD false then failS EVALID else pure k
+          | none => pure none) >>= fun got => loadFinish rev got modLatest) >>= circularCheck
 end
 
 /-! ## implementing (`lys_implement`, `lys_precompile_augments_deviations`, `lys_has_compiled_import_r`) -/
@@ -488,9 +524,7 @@ def setImplementedInner (k : MKey) (arg : FeatArg) : M Unit := do
       match setFeatures m arg with
       | none => failS EINVAL
       | some (_, changed) =>
-        if changed then do
-          modS (setFeatsPrim k arg)                                       -- the flags are flipped in place (F4)
-          updM k fun x => { x with toCompile := true }
+        if changed then modS (setFeatsFlag k arg)                         -- the flags are flipped in place (F4)
         else pure ()
     else do
       let _ ← implement k arg
